@@ -57,7 +57,7 @@ class Block:
         self.term = None
 
 
-RE_CONST = re.compile(r'^const (\S+): ([^\n]*?) = \{\n(.*?)^\}\n', re.M | re.S)
+RE_CONST = re.compile(r'^const ([^\n]*?promoted\[\d+\]|\S+): ([^\n]*?) = \{\n(.*?)^\}\n', re.M | re.S)
 RE_FN = re.compile(r'^fn (.*?)\((.*?)\) -> (.*?) \{\n(.*?)^\}\n', re.M | re.S)
 
 
